@@ -41,6 +41,9 @@ func main() {
 	switch os.Args[1] {
 	case "check":
 		os.Exit(cmdCheck(os.Args[2:]))
+	case "checkall":
+		// self-test helper (seed matrix, neutral refactors): one load, every check
+		os.Exit(cmdCheckAll(os.Args[2:]))
 	case "list":
 		var ids []string
 		for id := range registry {
@@ -100,6 +103,41 @@ func cmdCheck(args []string) int {
 		}
 	}
 	status = primary.Finish()
+	return status
+}
+
+func cmdCheckAll(args []string) int {
+	fs := flag.NewFlagSet("checkall", flag.ExitOnError)
+	tier := fs.String("tier", envOr("VERIF_TIER", "quick"), "quick|thorough")
+	fs.Parse(args)
+	p, err := Load(RepoDir(), "amd64")
+	var ids []string
+	for id := range registry {
+		ids = append(ids, id)
+	}
+	sort.Strings(ids)
+	seed, _ := strconv.Atoi(os.Getenv("VERIF_SEED"))
+	status := 0
+	for _, id := range ids {
+		c := NewCheck(id, *tier, p)
+		c.Seed = seed
+		c.Explain = explain[id]
+		if err != nil {
+			c.Undecided("E0/load", "packages.Load[amd64]", "-", err.Error())
+		} else {
+			func() {
+				defer func() {
+					if r := recover(); r != nil {
+						c.Undecided("E0/panic", "analyser[amd64]", "-", fmt.Sprintf("analyser panic: %v\n%s", r, firstLines(string(debug.Stack()), 14)))
+					}
+				}()
+				registry[id](c)
+			}()
+		}
+		if st := c.Finish(); st > status {
+			status = st
+		}
+	}
 	return status
 }
 
